@@ -42,6 +42,10 @@ pub fn parse(raw: &[u8]) -> Result<IndexMap<String, Vec<u8>>> {
     for entry in entry_metadata {
         cursor.set_position(entry.name_address as u64);
         let name = cursor.read_shift_jis_string()?;
+        let file_end = (entry.file_address as usize).checked_add(entry.file_size_unpadded as usize);
+        if file_end.map(|end| end > raw.len()).unwrap_or(true) {
+            return Err(crate::ArchiveError::ArchiveTooSmall);
+        }
         cursor.set_position(entry.file_address as u64);
         let mut contents = vec![0; entry.file_size_unpadded as usize];
         cursor.read_exact(&mut contents)?;
